@@ -220,10 +220,11 @@ Section Export.
     | KCFG => mk OCfg [cfg_region ch ech]
     | KCond => mk OCond (flat_map e_regs ech)
     | KCase => ENode OInvalid 0 [] [] [dfg_region ch ech] [] []
-    | KFuncDefn => ENode (ODefFunc (n_idx i)) 0 [] [] [dfg_region ch ech] key (n_meta i)
-    | KFuncDecl => ENode (ODeclFunc (n_idx i)) 0 [] [] [] key (n_meta i)
-    | KAliasDecl => ENode (ODeclAlias (alias_sym i)) 0 [] [] [] key (n_meta i)
-    | KAliasDefn => ENode (ODefAlias (alias_sym i)) 0 [] [] [] key (n_meta i)
+    (* definitions and declarations have no signature ports: n_in = n_out = 0, n_sig = 0 in the view *)
+    | KFuncDefn => mk (ODefFunc (n_idx i)) [dfg_region ch ech]
+    | KFuncDecl => mk (ODeclFunc (n_idx i)) []
+    | KAliasDecl => mk (ODeclAlias (alias_sym i)) []
+    | KAliasDefn => mk (ODefAlias (alias_sym i)) []
     | KCall => mk (OCall (oget (func_sym i))) []
     | KLoadFunc => mk (OLoadFunc (oget (func_sym i))) []
     | KLoadConst => mk (OLoadConst (oget (const_val i))) []
